@@ -12,7 +12,7 @@
    NOT proved: C01_full for the real compiler on all programs.  Outside the fragment the property is decided per
    explored program by the extracted specs on the real compiler's binary (tools/c01.py): translation validation. *)
 From Coq Require Import ZArith List String Lia.
-From HexVerif Require Import WMap Isa XAst XSem XSemProps XCodegenIsa XCodegenInv XCodegenExpr XCodegenStmt AsmSpec AsmSpecProofs XCodegenBridge XCodegenCall XCodegenImage XCodegenProgram XCodegenDemo.
+From HexVerif Require Import WMap Isa XAst XSem XSemProps XCodegenIsa XCodegenInv XCodegenExpr XCodegenStmt AsmSpec AsmSpecProofs XCodegenBridge XCodegenCall XCodegenImage XCodegenProgram XCodegenDemo XCodegenPeephole.
 Import ListNotations.
 Local Open Scope Z_scope.
 
@@ -215,7 +215,8 @@ Print Assumptions C01_stmt_calls_partial.
    sp+size-1-j, formal i at sp+size+1+i -- sp+size+2+i in a function --, globals at their DATA words), the exit label
    and the epilogue (LDBM 1; [function: STAI size+1, the result to the caller's outgoing word 1;] LDAC size; ADD;
    STAM 1; LDBI size; BRB); this is the model's lowered procedure (C01_cproc_lowered_shape), BEFORE the peepholes.
-   Frame numbers: 0 < size <= maxframe, locals <= nslots, nslots + og <= size.  Globals lie below stack_lo, the
+   Frame numbers: 0 <= size <= maxframe, locals <= nslots, nslots + og <= size (size 0: a leaf procedure without
+   locals, for which xcmp leaves the stack pointer alone: prologue LDBM 1; STAI 0, epilogue LDBM 1; LDBI 0; BRB).  Globals lie below stack_lo, the
    region [stack_lo, 2^18) is unprotected, word 1 is unprotected, no global variable and no procedure of the table
    bears the name of a global `val` constant.
    frame_ok .. sp: a frame of such a procedure at stack pointer sp >= stack_lo whose formals fit below the top of
@@ -232,7 +233,7 @@ Print Assumptions C01_stmt_calls_partial.
    relation is built from XSem.enter (locals undefined, formals = actuals), the caller's is rebuilt from the
    callee's frame_only.
    Missing for C01_full: calls inside operands and actuals (needs a commutation theorem for XSem's operand
-   evaluation order), array/proc formals, shadowing of globals, size = 0 frames, the peephole pass, get, arrays,
+   evaluation order), array/proc formals, shadowing of globals, the peephole pass, get, arrays,
    strings, the entry stub and the whole-program layout (that DATA/stack/code are placed so that the layout
    hypotheses hold is checked per program by tools/c08.py's monitor, not proved). *)
 Theorem C01_calls_partial :
@@ -286,7 +287,7 @@ Print Assumptions C01_call_ok_partial.
 (* the code shape assumed in (4d) is the executable model's lowered procedure (exit label 0, body labels from 1,
    nslots = size), which tools/c01.py compares with `xcmp -S` after the model's peephole pass *)
 Theorem C01_cproc_lowered_shape : forall pinfo gaddr pool p size og code,
-  0 < size -> cproc_lowered pinfo gaddr pool p size og = Some code ->
+  cproc_lowered pinfo gaddr pool p size og = Some code ->
   exists bc n', cs pinfo (frame_venv gaddr p size) pool size size (first_temp p) og 0 (body p) 1 = Some (bc, n') /\
                 code = pro size ++ bc ++ epi_of (is_func p) 0 size.
 Proof. exact cproc_lowered_simple. Qed.
@@ -378,6 +379,49 @@ Print Assumptions C01_program_nonvacuous.
 
 Example C01_demo_model_image : model_compile demo_frames false demo = Some demo_image.
 Proof. exact demo_model_image. Qed.
+
+(* (4g) PARTIAL: the three peephole rewrites of OptimiseDirectives, locally.  The executable pass `peephole`
+   (XCodegenStmt.v; with it model_compile reproduces xcmp's bytes) applies nothing but three rules, left to right
+   (C01_peephole_rewrites):
+       rule 1   BR l; LABEL l                   ->  LABEL l
+       rule 2   STAM 1; LDAM 1                  ->  STAM 1
+       rule 3   LDBM 1; STAI x; LDAM 1; LDAI x  ->  LDBM 1; STAI x
+   and for each rule, wherever the decoder reads the LEFT block (code_at, any image, any position), the machine
+   runs silently through it from every state to exactly the state the RIGHT block's instructions give
+   (block_sem: registers and memory; rule 1: nothing changes) -- the removed instructions are no-ops there.
+   Rule 3 needs the stored frame word to be in memory and not to be the stack-pointer word 1 itself (otherwise the
+   rewrite would be unsound: the reload would use the new stack pointer); every frame xcmp lays out satisfies it.
+   C is any class of memories closed under storing to word 1 (rule 2) / containing the memory after the store
+   (rule 3) -- e.g. C P m0 of (4) with word 1 and the frame word unprotected.
+   Missing: that rewriting a whole procedure preserves the behaviour of the whole image.  The rewrite shifts every
+   later instruction, so label positions -- and the link addresses held in registers and frame words -- differ
+   between the lowered and the optimised image; a whole-image simulation has to know which words hold code
+   addresses.  C01_program_partial is about the lowered image; the optimised image is tied to xcmp's bytes, and
+   tools/c01.py runs both images of every generated program on the extracted ISA and compares what they show. *)
+Theorem C01_peephole_rewrites : forall f c, rewrites c (peephole f c).
+Proof. exact peephole_rewrites. Qed.
+Print Assumptions C01_peephole_rewrites.
+
+Theorem C01_peephole_rule1_partial : forall (C : WMap.t -> Prop) (lab : label -> Z) l pos nxt m a b inp,
+  code_at C lab pos [BR l; LABEL l] nxt -> C m -> nxt < W -> 0 <= pos ->
+  taus inp (mk pos a b 0 m) (mk nxt a b 0 m).
+Proof. exact rule1. Qed.
+Print Assumptions C01_peephole_rule1_partial.
+
+Theorem C01_peephole_rule2_partial : forall (C : WMap.t -> Prop) (lab : label -> Z),
+  (forall m v, C m -> C (wr m 1 v)) ->
+  forall pos nxt m a b inp,
+  code_at C lab pos [STAM 1; LDAM 1] nxt -> C m -> nxt < W ->
+  taus inp (mk pos a b 0 m) (let '(a', b', m') := block_sem [STAM 1] a b m in mk nxt a' b' 0 m').
+Proof. exact rule2. Qed.
+Print Assumptions C01_peephole_rule2_partial.
+
+Theorem C01_peephole_rule3_partial : forall (C : WMap.t -> Prop) (lab : label -> Z) x pos nxt m a b inp,
+  code_at C lab pos [LDBM 1; STAI x; LDAM 1; LDAI x] nxt -> C m -> nxt < W ->
+  in_mem (wrap (rd m 1 + x)) = true -> wrap (rd m 1 + x) <> 1 -> C (wr m (wrap (rd m 1 + x)) a) ->
+  taus inp (mk pos a b 0 m) (let '(a', b', m') := block_sem [LDBM 1; STAI x] a b m in mk nxt a' b' 0 m').
+Proof. exact rule3. Qed.
+Print Assumptions C01_peephole_rule3_partial.
 
 (* (5) the hypothesis code_at of (4) is what the assembler side delivers: where the ISA's own decoder reads
    instruction i (for a branch: with its label's position relative to the next instruction as operand) in an image
